@@ -25,6 +25,8 @@ namespace c05
 struct event_log
 {
   std::vector<int> cp, mv, ram, lost;
+  // the value category with which the library handed an element to a user's function, one entry per element and call
+  std::vector<char> uc;
   // values made from nothing: by the user's functions (`derive`, fresh values) or read from a string
   int made{0};
   void clear()
@@ -33,6 +35,7 @@ struct event_log
     mv.clear();
     ram.clear();
     lost.clear();
+    uc.clear();
     made = 0;
   }
 };
@@ -133,16 +136,60 @@ static_assert(!std::is_copy_constructible_v<MTok> && !std::is_copy_assignable_v<
 
 // ---------------------------------------------------------------- the user's functions
 
-// identity on identities: an rvalue is moved through, an lvalue is read and a new value derived from it
+// Every function the harness gives to the library is generic in the value category of what it is handed and records it:
+// `l` = lvalue (T & or T const &), `r` = rvalue (T &&), `k` = const rvalue (cannot be stolen; never expected).
+template <typename U>
+constexpr char cat_of()
+{
+  if constexpr (std::is_lvalue_reference_v<U>)
+    return 'l';
+  else if constexpr (std::is_const_v<std::remove_reference_t<U>>)
+    return 'k';
+  else
+    return 'r';
+}
+template <typename U>
+void note()
+{
+  g_log.uc.push_back(cat_of<U>());
+}
+// comparators that std algorithms call an unspecified number of times only report what must never happen (a non-lvalue)
+template <typename U>
+void cmp_note()
+{
+  if constexpr (cat_of<U>() != 'l')
+    g_log.uc.push_back(cat_of<U>());
+}
+// what a function with a by-value parameter does with its argument: an rvalue is stolen (move-constructed into the parameter, which
+// dies at the end of the call unless it is handed on), an lvalue is referred to. Use as `auto &&x{take(FWD(e))};`
+template <typename U>
+decltype(auto) take(U &&_u)
+{
+  note<U>();
+  if constexpr (cat_of<U>() == 'r')
+    return std::remove_cvref_t<U>(std::move(_u));
+  else
+    return static_cast<std::remove_reference_t<U> const &>(_u);
+}
+// a function that only looks at its argument (predicates, actions)
+template <typename U>
+void ask(U &&_u)
+{
+  auto &&x{take(std::forward<U>(_u))};
+  x.read();
+}
+
+// identity on identities: an rvalue is moved through (stolen and handed on), an lvalue is read and a new value derived from it
 struct thru
 {
   template <typename U>
   std::remove_cvref_t<U> operator()(U &&_u) const
   {
-    if constexpr (std::is_lvalue_reference_v<U>)
-      return _u.derive(1);
-    else
+    note<U>();
+    if constexpr (cat_of<U>() == 'r')
       return std::remove_cvref_t<U>(std::move(_u));
+    else
+      return _u.derive(1);
   }
 };
 
@@ -229,7 +276,11 @@ inline std::string finish(std::string const &_tag, std::string const &_res, std:
   for (std::size_t i = 0; i < _args.size(); ++i)
     r += " a" + std::to_string(i) + "=" + _args[i];
   r += " cp=" + ids(_log.cp, true) + " mv=" + ids(_log.mv, false) + " ram=" + ids(_log.ram, true) + " lost=" + ids(_log.lost, false) +
-       " mk=" + std::to_string(_log.made);
+       " mk=" + std::to_string(_log.made) + " uc=";
+  if (_log.uc.empty())
+    r += "-";
+  for (std::size_t i = 0; i < _log.uc.size(); ++i)
+    r += std::string(i == 0 ? "" : ",") + _log.uc[i];
   return r;
 }
 
@@ -447,12 +498,7 @@ struct sink_second
   template <typename A, typename B>
   std::remove_cvref_t<A> operator()(A &&_a, B &&_b) const
   {
-    if constexpr (std::is_lvalue_reference_v<B>)
-      _b.read();
-    else
-    {
-      std::remove_cvref_t<B> const sink{std::move(_b)};
-    }
+    ask(std::forward<B>(_b));
     return thru{}(std::forward<A>(_a));
   }
 };
